@@ -122,12 +122,14 @@ PROPS = {
                      {"engine": "restdiff", "profile": "replica", "salt": 32, "workers": 8, "split": False,
                       "quick": {"n": 0, "len": 0}, "thorough": {"n": 3000, "len": 0, "timeout": 3000}}],
             "modelled": FS + ["the REST action table is regenerated from replica/rest/model.go on every run (T1) and every (state, action) pair is sent to the real router (restdiff): 404 iff the model says gated"]},
-    "C14": {"lean": ["JivaVerif.Properties.Rest"], "prefixes": ["c14_", "c17_rest_gate", "c17_error_offers_nothing"],
+    "C14": {"lean": ["JivaVerif.Properties.Rest", "JivaVerif.Properties.C14"], "prefixes": ["c14_", "c17_rest_gate", "c17_error_offers_nothing"],
+            "explain": ["locks"],
             "level": "exploration",
             "runs": [{"engine": "restdiff", "profile": "all", "salt": 31, "workers": 8, "split": False,
                       "quick": {"n": 0, "len": 0}, "thorough": {"n": 4000, "len": 0, "timeout": 3000}}],
             "modelled": ["searched, not proved: handler panics, fatal runtime errors, deadlocks and leaked locks are looked for by sending every route x method x body class x state to the REAL routers, one request per fresh state, in child processes (a crash or hang is attributed to the request); finding nothing is not a proof",
                          "proved: the REST action gate over the regenerated action table; the chain comparison of VerifyRebuildReplica is total (no slice out of range)",
+                         "proved on a model regenerated from the source on every run (extract/locks.go -> Generated/Locks.lean): for every function of the controller, the replica and their REST servers that handles a mutex, every distinct lock-event sequence along its control-flow paths (branches, loops taken zero times or once, deferred unlocks, calls of functions that take a lock) is balanced — nothing left held, nothing locked twice, nothing unlocked that is not held, no locking callee under the lock (c14_locks_balanced, evaluated by the kernel; c14_unlock_finds_held / c14_lock_finds_free / c14_nothing_held_at_exit say what acceptance means); syntactic analysis: function values and interface calls are not followed, goroutine bodies are not analysed, lock identity is by owning type",
                          "not covered: memory exhaustion by bodies larger than 1 MiB, net/http internals, handlers reached only with real sync agents (preparerebuild file transfer)"]},
     "C15": {"lean": ["JivaVerif.Properties.C15"],
             "runs": [{"engine": "rpcdiff", "profile": "mix", "salt": 21,
